@@ -1,10 +1,14 @@
 ID = 'C15'
 TITLE = 'Sequence representations convert losslessly and invert one another'
-CONTRACT_MODULES = []
-FUNCTIONS = []
+CONTRACT_MODULES = ['contracts.utils_c', 'contracts.utils_def_c']
+FUNCTIONS = ['tangermeme.utils.chunk', 'tangermeme.utils.unchunk']
 BOUNDED = 'bounded.C15'
 BOUNDED_BUDGET = {'quick': 60, 'thorough': 600}
 LEVEL = 'other'
-EXPLANATION = 'bounded stand-in only so far: exhaustive short strings, every chunk size/overlap'
-ASSUMPTIONS = []
+EXPLANATION = ("deductive: chunk (unfold axiom, row offsets per sequence) and unchunk (1, 2 and >= 3 chunk paths, both overlap parities, "
+               "running chunk offset over 1-2 sequences): every position covered by a complete chunk is taken from the chunk that owns it - with "
+               "chunk's contract this is the round trip. bounded: one_hot_encode / characters round trip on exhaustive short strings and "
+               "alphabets, rejection of foreign characters, reverse_complement involution / string-tensor agreement, chunk sizes 1-40 x overlaps")
+ASSUMPTIONS = ["unfold / moveaxis / reshape axioms (vf/lib.py)", "lemma ediv_emod_of_decomp instances (Lean) for the merged middle chunks",
+               "one_hot_encode, characters, reverse_complement definitions are not under contract (bounded only)"]
 TRUSTED = []
